@@ -109,6 +109,7 @@ class DocCpp:
     def __init__(self):
         self.root = N(X_GROUP)
         self.auto = False
+        self.overrides = False
         self.deffmt = 0
         self.live = False       # no prediction before init+xinit or after a call whose effect is not documented
 
@@ -190,6 +191,9 @@ class DocCpp:
             return None
         if c == "option" and len(f) == 3 and f[1] == "1":
             self.auto = f[2] != "0"
+            return "R unit"
+        if c == "option" and len(f) == 3 and f[1] == "128":
+            self.overrides = f[2] != "0"
             return "R unit"
         if c == "deffmt":
             self.deffmt = int(f[1]) & 0xffff
@@ -302,8 +306,13 @@ class DocCpp:
             name = unhx(f[2]) or b""
             if par.ty != X_GROUP or ty not in range(1, 9):
                 return T_TYPE
-            if not valid_name(name) or any(k.name == name for k in par.kids):
+            if not valid_name(name):
                 return T_NAME
+            old = [k for k in par.kids if k.name == name]
+            if old:
+                if not self.overrides:
+                    return T_NAME
+                par.kids.remove(old[0])     # CONFIG_OPTION_ALLOW_OVERRIDES: the new setting replaces the old one
             par.kids.append(N(ty, name))
             return "R n" + path_str(p + [len(par.kids) - 1])
         if par.ty not in (X_ARRAY, X_LIST):
@@ -566,8 +575,11 @@ class Gen:
 
     def op_config(self):
         rng = self.rng
-        if rng.random() < 0.5:
+        r = rng.random()
+        if r < 0.4:
             self.emit("option 1 %d" % (0 if self.doc.auto else 1))
+        elif r < 0.7:
+            self.emit("option 128 %d" % (0 if self.doc.overrides else 1))
         else:
             self.emit("deffmt %d" % rng.choice([0, 1]))
 
@@ -610,6 +622,8 @@ def history(rng, nops, focus=None):
         g.emit("option 1 1")
     if rng.random() < 0.15:
         g.emit("deffmt 1")
+    if rng.random() < 0.3:
+        g.emit("option 128 1")
     g.build(rng.choice([1, 2, 3]))
     names = [o for o, w in OPS for _ in range(w)]
     if focus:
